@@ -123,6 +123,8 @@ func C11(tier string) int {
 			sizes[sh] = long
 		case "search-or":
 			sizes[sh] = []int{1 << 6, 1 << 8, 1 << 10, 1 << 12, 1 << 14}
+		case "search-nest-open-lines":
+			sizes[sh] = []int{1 << 6, 1 << 8, 1 << 10, 1 << 11}
 		case "search-nest-open", "list-nest":
 			// parse-only nesting (no command is built): the 1 MB and 8 MB lines of the statement's example
 			sizes[sh] = append(append([]int{}, nest...), 1<<16, 1<<20, 8<<20)
